@@ -32,7 +32,7 @@ fn info(tier: Tier) -> CheckInfo {
         id: "C01",
         level: "model_checking",
         rule: format!(
-            "Tier {}: networks of S in 1..{} real server nodes + C in 0..{} real client nodes built by real joins (every join order of the id classes), every ordered (writer, reader) pair of distinct nodes, six data kinds (immutable; mutable without and with salt; announce_peer explicit and implied port; announce_signed_peer), public and private IP plan. After the put returned Ok, every crash set X with reader not in X, an acknowledging node other than the reader left alive and the reader still knowing a live node is applied, then the reader looks the key up. Variants: the reader already has a lookup for the key in flight (issued when the put starts, kept open by a node crashed beforehand); the reader looks up 60 s after the put; the reader issues the lookup twice 100 ms apart{}. Oracle: the reader's result contains the exact bytes / an item equal in key, seq, value, salt / the writer's IP with the announced (or source) port / the signed announcement; the acknowledging set is read from the datagram log. Puts that do not return Ok are non-instances.",
+            "Tier {}: networks of S in 1..{} real server nodes + C in 0..{} real client nodes built by real joins (every join order of the id classes), every ordered (writer, reader) pair of distinct nodes, six data kinds (immutable; mutable without and with salt; announce_peer explicit and implied port; announce_signed_peer), public and private IP plan. After the put returned Ok, every crash set X with reader not in X, an acknowledging node other than the reader left alive and the reader still knowing a live node is applied, then the reader looks the key up. Variants: the reader already has a lookup for the key in flight (issued when the put starts, kept open by a node crashed beforehand); the reader looks up 60 s after the put; the reader issues the lookup twice 100 ms apart; the reader already looked the key up (a completed miss) right after it joined and before the later nodes joined, so its lookup cache names only early nodes, and walked to an unrelated id after everybody joined; the reader has its own put for the same key in flight (an older item of the same mutable key / its own announcement), started 30 ms or 100 ms before the lookup{}. Oracle: the reader's result contains the exact bytes / an item equal in key, seq, value, salt / the writer's IP with the announced (or source) port / the signed announcement; the acknowledging set is read from the datagram log. Puts that do not return Ok are non-instances.",
             tier.name(),
             if tier.is_quick() { 3 } else { 4 },
             if tier.is_quick() { 1 } else { 2 },
@@ -56,7 +56,11 @@ struct Cfg {
     public: bool,
     /// 0: plain; 1: the reader has a lookup in flight, issued when the put starts;
     /// 2: the reader looks up 60 s after the put; 3: the reader issues the lookup twice,
-    /// 100 ms apart (the second joins the first while a crashed node keeps it open)
+    /// 100 ms apart (the second joins the first while a crashed node keeps it open);
+    /// 4: the reader already looked the key up (a miss, completed) right after it joined, before
+    /// the later nodes joined, so it holds a cached set of responders for the key;
+    /// 5, 6: the reader has its own put for the same key in flight (started after the crash,
+    /// 30 ms / 100 ms before the lookup)
     variant: usize,
 }
 
@@ -101,9 +105,17 @@ fn build(cfg: &Cfg, chooser: Chooser, track: bool) -> Net {
     let mut w = World::new(chooser);
     w.track_states = track;
     let perm = permutation(cfg.s, cfg.perm);
-    let mut nodes = vec![];
-    let mut addrs: Vec<SocketAddrV4> = vec![];
-    for j in 0..cfg.s + cfg.c {
+    let total = cfg.s + cfg.c;
+    let mut nodes = vec![usize::MAX; total];
+    let addrs: Vec<SocketAddrV4> = (0..total).map(|j| SocketAddrV4::new(node_ip(j, cfg.public).into(), 6881)).collect();
+    // join order: servers, then clients; in variant 4 the last server joins after everybody
+    // else (it is the node the reader's earlier lookup cannot have seen)
+    let mut order: Vec<usize> = (0..total).collect();
+    if cfg.variant == 4 && cfg.s >= 2 {
+        let late = order.remove(cfg.s - 1);
+        order.push(late);
+    }
+    for j in order {
         let boots: Vec<SocketAddrV4> = if j == 0 { vec![] } else { vec![addrs[0]] };
         let idc = if j < cfg.s { perm[j] } else { j };
         let mut nc = NodeCfg::new(node_ip(j, cfg.public), 6881).bootstrap(&boots).id(id_class(idc));
@@ -111,13 +123,25 @@ fn build(cfg: &Cfg, chooser: Chooser, track: bool) -> Net {
             nc = nc.server();
         }
         let n = w.add_node(nc);
-        nodes.push(n);
-        addrs.push(w.node_addr(n));
+        nodes[j] = n;
+        assert_eq!(w.node_addr(n), addrs[j], "MACHINERY: node address");
         let c = w.call_bootstrapped(n);
         let h = w.now + 60 * SEC;
         w.run_calls(&[c], h);
+        if cfg.variant == 4 && j == cfg.reader {
+            let g = issue_get(&mut w, n, cfg.kind);
+            let h = w.now + 60 * SEC;
+            w.run_calls(&[g], h);
+        }
     }
     w.run_for(2 * SEC);
+    if cfg.variant == 4 {
+        // the reader walks towards an unrelated id once everybody has joined, so that its
+        // routing table (not its lookup cache for the key) knows the later nodes too
+        let g = w.call_find_node(nodes[cfg.reader], [0x77u8; 20].into());
+        let h = w.now + 60 * SEC;
+        w.run_calls(&[g], h);
+    }
     Net { w, nodes, addrs, servers: cfg.s }
 }
 
@@ -129,6 +153,19 @@ fn issue_put(w: &mut World, node: usize, kind: usize) -> usize {
         3 => w.call_announce_peer(node, INFO.into(), Some(4242)),
         4 => w.call_announce_peer(node, INFO.into(), None),
         _ => w.call_announce_signed_peer(node, INFO.into(), krpc::signing_key(0xC2)),
+    }
+}
+
+/// The reader's own put for the same key (variants 5, 6): an older item of the same mutable
+/// key, its own announcement for the same info hash, the same immutable bytes.
+fn issue_own_put(w: &mut World, node: usize, kind: usize) -> usize {
+    match kind {
+        0 => w.call_put_immutable(node, IMM.to_vec()),
+        1 => w.call_put_mutable(node, MutableItem::new(&krpc::signing_key(0xC1), b"c01 older", 6, None), None),
+        2 => w.call_put_mutable(node, MutableItem::new(&krpc::signing_key(0xC1), b"c01 older salted", 8, Some(SALT)), None),
+        3 => w.call_announce_peer(node, INFO.into(), Some(5151)),
+        4 => w.call_announce_peer(node, INFO.into(), None),
+        _ => w.call_announce_signed_peer(node, INFO.into(), krpc::signing_key(0xC3)),
     }
 }
 
@@ -248,8 +285,14 @@ fn scenario(cfg: &Cfg, chooser: Chooser, faults: bool, crash_index: Option<usize
             if cfg.variant == 2 {
                 w.run_for(60 * SEC);
             }
+            let mut own_put = None;
+            if cfg.variant == 5 || cfg.variant == 6 {
+                own_put = Some(issue_own_put(w, reader, cfg.kind));
+                w.run_for(if cfg.variant == 5 { 30 * MS } else { 100 * MS });
+            }
             let mut get = issue_get(w, reader, cfg.kind);
             let mut calls = vec![get];
+            calls.extend(own_put);
             if let Some(e) = early_get {
                 calls.push(e);
             }
@@ -267,7 +310,7 @@ fn scenario(cfg: &Cfg, chooser: Chooser, faults: bool, crash_index: Option<usize
             } else if !found(r, cfg.kind, writer_addr) {
                 let left: Vec<usize> = ackers.iter().filter(|a| **a != cfg.reader && !x.contains(a)).cloned().collect();
                 problems.push((
-                    format!("value-not-found/{}/{}", KINDS[cfg.kind], ["plain", "reader-lookup-in-flight", "lookup-60s-later", "second-caller-joins"][cfg.variant]),
+                    format!("value-not-found/{}/{}", KINDS[cfg.kind], ["plain", "reader-lookup-in-flight", "lookup-60s-later", "second-caller-joins", "reader-looked-up-before-later-joins", "reader-put-in-flight-30ms", "reader-put-in-flight-100ms"][cfg.variant]),
                     format!("put Ok acknowledged by nodes {ackers:?}; crashed {x:?}; acknowledging nodes still alive {left:?}; the reader got {}", match r {
                         Some(CallResult::Bytes(b)) => format!("bytes={}", b.is_some()),
                         Some(CallResult::Mutables(m)) => format!("{} items", m.len()),
@@ -339,7 +382,7 @@ fn run(tier: Tier, shard: usize, nshards: usize, _seed: u64) -> Partial {
                                 continue;
                             }
                             for public in [true, false] {
-                                for variant in 0..4 {
+                                for variant in 0..7 {
                                     if variant == 1 && s < 3 {
                                         continue;
                                     }
